@@ -113,7 +113,7 @@ def run(ctx):
             # model with the coins of the random outcomes
             coins = [0 if res == 1 else 1 for k, res in zip(kinds, results) if k != 'determined']
             ans = ctx.drv.ask('circ %s fwd S %d %s %s - none' % (a, r, H.erows_ops(rows), E.ebits(coins)))
-            ctx.count('corr:forward')
+            ctx.count('corr:forward'); ctx.traces += 1
             if ans.startswith('ok '):
                 _, mr, mt, mc, _ = ans.split(' ')
                 mrows = H.drows_ops(mt)
